@@ -141,6 +141,22 @@ var c11CuratedFamilies = []c11Family{
 			{Text: "[@item]", Override: []lib.TypeDef{{Name: "@id", Text: "true"}}},
 		},
 	},
+	{ // one type object that is legal in one root and illegal in another: @item names @id, which the
+		// second root was not given; @dict uses @key as a key shortcut, a string type in the first
+		// root and a number in the third
+		Types: []lib.TypeDef{
+			{Name: "@id", Text: "12 // {min: 1}"},
+			{Name: "@item", Text: "{\n  \"owner\": @id\n}"},
+			{Name: "@key", Text: "\"abc\" // {minLength: 1}"},
+			{Name: "@dict", Text: "{\n  @key: 1\n}"},
+		},
+		Roots: []c11Root{
+			{Text: "{\n  \"it\": @item,\n  \"d\": @dict // {optional: true}\n}"},
+			{Text: "{\n  \"it\": @item\n}", Only: []string{"@item"}},
+			{Text: "{\n  \"d\": @dict\n}", Only: []string{"@dict", "@key"}, Override: []lib.TypeDef{{Name: "@key", Text: "12"}}},
+			{Text: "[@dict, @item]", Only: []string{"@dict", "@item", "@id"}},
+		},
+	},
 }
 
 var c11CuratedDocs = []c11Doc{
@@ -500,6 +516,9 @@ var c11ExhPools = []c11ExhPool{
 	{"one type object in two roots binding a name it references to different types + a document", c11Pool{
 		Families: []c11Family{{Types: c11CuratedFamilies[10].Types, Roots: c11CuratedFamilies[10].Roots[:2]}},
 		Docs:     []c11Doc{{Text: `{"it": {"id": 5}}`}}}},
+	{"one type object legal in the first root and illegal in the second (a name it references is missing / bound to a number) + a document", c11Pool{
+		Families: []c11Family{{Types: c11CuratedFamilies[11].Types, Roots: c11CuratedFamilies[11].Roots[:3]}},
+		Docs:     []c11Doc{{Text: `{"it": {"owner": 5}}`}}}},
 	{"two allOf parents, key shortcut roots + a trailing-characters document", c11Pool{
 		Families: []c11Family{{Types: c11CuratedFamilies[5].Types, Roots: c11CuratedFamilies[5].Roots[:2]}},
 		Docs:     []c11Doc{{Text: `{"p1": 1, "own": true, "kk2": 5} x`, Trailing: true}}}},
